@@ -19,13 +19,66 @@ import (
 type WOp struct {
 	Kind  string `json:"kind"` // write | readfrom
 	Data  Data   `json:"data"`
-	Sizes []int  `json:"sizes,omitempty"` // readfrom: sizes of the pieces the source returns
+	Sizes []int  `json:"sizes,omitempty"` // readfrom (old form): sizes of the results the source returns, no errors
+	// readfrom: the results the scripted source returns, cut from Data in order (what is left of Data is a
+	// last result without error): Len bytes and, together with them, Err ("" | "eof" | "err")
+	Items []SrcIt `json:"items,omitempty"`
+}
+
+type SrcIt struct {
+	Len int    `json:"len"`
+	Err string `json:"err,omitempty"`
+}
+
+// script returns the source script of a readfrom op and its rendering for the driver.
+func (o WOp) script() ([]SrcItem, string) {
+	its := o.Items
+	if len(its) == 0 {
+		for _, n := range o.Sizes {
+			its = append(its, SrcIt{Len: n})
+		}
+	}
+	d := o.Data.Bytes()
+	var items []SrcItem
+	var spec []string
+	for _, it := range its {
+		n := min(it.Len, len(d))
+		si := SrcItem{Data: d[:n]}
+		t := fmt.Sprint(it.Len)
+		switch it.Err {
+		case "eof":
+			si.Err, t = io.EOF, t+"e"
+		case "err":
+			si.Err, t = ErrSource, t+"x"
+		}
+		items = append(items, si)
+		spec = append(spec, t)
+		d = d[n:]
+	}
+	if len(d) > 0 {
+		items = append(items, SrcItem{Data: d})
+	}
+	if len(spec) == 0 {
+		return items, "-"
+	}
+	return items, strings.Join(spec, ",")
+}
+
+// WObs is what one writer call did: the error class it returned and the bytes the caller / the source
+// handed to the conn.
+type WObs struct {
+	Err    string
+	Handed []byte
 }
 
 // ROp is one call on the reading side of a tunnel end.
 type ROp struct {
-	Kind string `json:"kind"` // read | writeto | tunnel
+	Kind string `json:"kind"` // read | writeto | tunnel | writeto-sink | writeto-badsink
 	N    int    `json:"n,omitempty"`
+	// writeto-sink: the results of the sink's Write calls (then it takes everything);
+	// writeto-badsink: the sink's first Write takes half of what is offered and returns nil (outside the
+	// io.Writer contract: run against the code, reported in the evidence, no verdict, schedule ends)
+	Sink []SinkIt `json:"sink,omitempty"`
 	// tunnel: entered through the reader's WriteTo (false) or the destination's ReadFrom (true)
 	ViaReadFrom bool `json:"via_readfrom,omitempty"`
 }
@@ -125,6 +178,9 @@ type Obs struct {
 	CFirstSeg   int
 	Panic       string
 	C2STouts, S2CTouts []int
+	// the bytes each side handed to its conn, in order (initial payload, Write data, what the ReadFrom
+	// sources handed over): the streams the other side must receive
+	C2SHanded, S2CHanded []byte
 	// the request looked at again: after the server wrote (if it wrote) and at the end of the session
 	ReqLater []ReqSeen
 	// live objects of the session (for the tamper engine)
@@ -310,28 +366,22 @@ func pattern(ops []WOp) []byte {
 func (c Case) C2SStream() []byte { return append(c.Payload.Bytes(), pattern(c.CWrites)...) }
 func (c Case) S2CStream() []byte { return pattern(c.SWrites) }
 
-func doWrites(w netio.Conn, ops []WOp) (err error) {
-	for _, o := range ops {
-		d := o.Data.Bytes()
-		switch o.Kind {
-		case "readfrom":
-			var n int64
-			n, err = w.(io.ReaderFrom).ReadFrom(&Source{Pieces: CutBy(o.Sizes, d)})
-			if err == nil && n != int64(len(d)) {
-				err = fmt.Errorf("ReadFrom returned %d for %d bytes", n, len(d))
-			}
-		default:
-			var n int
-			n, err = w.Write(d)
-			if err == nil && n != len(d) {
-				err = fmt.Errorf("Write returned %d for %d bytes", n, len(d))
-			}
-		}
-		if err != nil {
-			return err
+func doWrite(w netio.Conn, o WOp) (res WObs) {
+	d := o.Data.Bytes()
+	switch o.Kind {
+	case "readfrom":
+		items, _ := o.script()
+		src := &Source{Items: items}
+		_, err := w.(io.ReaderFrom).ReadFrom(src)
+		res.Err, res.Handed = ErrClass(err), src.Handed
+	default:
+		n, err := w.Write(d)
+		res.Err, res.Handed = ErrClass(err), d
+		if err == nil && n != len(d) {
+			res.Err = fmt.Sprintf("other:Write returned %d for %d bytes", n, len(d))
 		}
 	}
-	return nil
+	return
 }
 
 // Tunnel sinks: a second, auxiliary session of the same configuration.
@@ -403,6 +453,24 @@ func (a *auxSink) pieces(forClientReader, started bool) ([][]byte, string) {
 	return append([][]byte{f.First}, f.Chunks...), f.Err
 }
 
+// badSink breaks the io.Writer contract once: its first non-empty Write takes half and returns nil.
+type badSink struct {
+	done bool
+	got  []byte
+	Lost int
+}
+
+func (b *badSink) Write(p []byte) (int, error) {
+	if !b.done && len(p) > 1 {
+		b.done = true
+		b.got = append(b.got, p[:len(p)/2]...)
+		b.Lost = len(p) - len(p)/2
+		return len(p) / 2, nil
+	}
+	b.got = append(b.got, p...)
+	return len(p), nil
+}
+
 // RunOps runs a reader schedule; cont: go on after a call failed (a caller that reads again after an error).
 func RunOps(rd netio.Conn, ops []ROp, cfg Cfg, target Target, clientReader, sinkStarted, cont bool) (out []OpObs) {
 	for _, op := range ops {
@@ -420,6 +488,17 @@ func RunOps(rd netio.Conn, ops []ROp, cfg Cfg, target Target, clientReader, sink
 				o.N, o.Err = n, ErrClass(err)
 				o.Pieces = sink.Writes
 				o.Bytes = bytes.Join(sink.Writes, nil)
+			case "writeto-sink":
+				sink := &ScriptSink{Script: append([]SinkIt{}, op.Sink...)}
+				n, err := rd.(io.WriterTo).WriteTo(sink)
+				o.N, o.Err = n, ErrClass(err)
+				o.Pieces = sink.Writes
+				o.Bytes = bytes.Join(sink.Writes, nil)
+			case "writeto-badsink":
+				sink := &badSink{}
+				n, err := rd.(io.WriterTo).WriteTo(sink)
+				o.N, o.Err = n, "badsink:"+ErrClass(err)
+				o.Bytes = sink.got
 			case "tunnel":
 				aux, err := newAux(cfg, target, clientReader, sinkStarted)
 				if err != nil {
@@ -449,7 +528,7 @@ func RunOps(rd netio.Conn, ops []ROp, cfg Cfg, target Target, clientReader, sink
 			o.Err = fmt.Sprintf("panic:%v", pan)
 		}
 		out = append(out, o)
-		if o.Err != "ok" && o.Err != "eof" && ((!cont && o.Err != "timeout") || pan != nil || strings.HasPrefix(o.Err, "harness:")) {
+		if o.Err != "ok" && o.Err != "eof" && ((!cont && o.Err != "timeout" && o.Err != "sink-error") || pan != nil || strings.HasPrefix(o.Err, "harness:") || strings.HasPrefix(o.Err, "badsink:")) {
 			break
 		}
 	}
@@ -460,6 +539,10 @@ func OpLine(sid int, side string, op ROp, now int64, started bool) string {
 	switch {
 	case side == "s" && op.Kind == "read":
 		return fmt.Sprintf("%d sread %d", sid, op.N)
+	case side == "s" && op.Kind == "writeto-sink":
+		return fmt.Sprintf("%d swritetosink %s", sid, sinkSpec(op.Sink))
+	case op.Kind == "writeto-sink":
+		return fmt.Sprintf("%d cwritetosink %d %s", sid, now, sinkSpec(op.Sink))
 	case side == "s" && op.Kind == "writeto":
 		return fmt.Sprintf("%d swriteto", sid)
 	case side == "s":
@@ -470,6 +553,21 @@ func OpLine(sid int, side string, op ROp, now int64, started bool) string {
 		return fmt.Sprintf("%d cwriteto %d", sid, now)
 	}
 	return fmt.Sprintf("%d ctunnel %d %s", sid, now, B(started))
+}
+
+func sinkSpec(sk []SinkIt) string {
+	if len(sk) == 0 {
+		return "-"
+	}
+	var t []string
+	for _, it := range sk {
+		x := fmt.Sprint(it.Accept)
+		if it.Err {
+			x += "e"
+		}
+		t = append(t, x)
+	}
+	return strings.Join(t, ",")
 }
 
 func OpExpect(o OpObs, flatOnly bool) string {
@@ -522,11 +620,16 @@ func run(c Case, sid int, cfg Cfg, keys Keys, obs *Obs, sc *Script) {
 	ct := d.Last
 	obs.CC, obs.CT = cc, ct
 	marks := []int{len(ct.Writes)}
+	obs.C2SHanded = append(obs.C2SHanded, payload...)
+	var cres []WObs
 	for _, o := range c.CWrites {
-		if err := doWrites(cc, []WOp{o}); err != nil {
-			obs.DialErr = "client write: " + err.Error()
+		wr := doWrite(cc, o)
+		if strings.HasPrefix(wr.Err, "other:") {
+			obs.DialErr = "client write: " + wr.Err
 			return
 		}
+		cres = append(cres, wr)
+		obs.C2SHanded = append(obs.C2SHanded, wr.Handed...)
 		marks = append(marks, len(ct.Writes))
 	}
 	obs.C2SWrites = ct.Writes
@@ -576,7 +679,8 @@ func run(c Case, sid int, cfg Cfg, keys Keys, obs *Obs, sc *Script) {
 	}
 	for i, o := range c.CWrites {
 		if o.Kind == "readfrom" {
-			sc.Add(fmt.Sprintf("%d creadfrom %s %s", sid, o.Data.Field(), Csv(o.Sizes)), "segs "+toySeg(marks[i], marks[i+1]))
+			_, spec := o.script()
+			sc.Add(fmt.Sprintf("%d creadfrom %s %s", sid, o.Data.Field(), spec), "segs "+toySeg(marks[i], marks[i+1])+" ret="+cres[i].Err)
 		} else {
 			sc.Add(fmt.Sprintf("%d cwrite %s", sid, o.Data.Field()), "segs "+toySeg(marks[i], marks[i+1]))
 		}
@@ -679,6 +783,9 @@ func run(c Case, sid int, cfg Cfg, keys Keys, obs *Obs, sc *Script) {
 	serverReads := func() {
 		obs.SOps = RunOps(sconn, c.SReads, cfg, c.Target, false, true, false)
 		for _, o := range obs.SOps {
+			if o.Op.Kind == "writeto-badsink" {
+				continue // outside the io.Writer contract: not modelled
+			}
 			sc.Add(OpLine(sid, "s", o.Op, now, true), OpExpect(o, false))
 		}
 	}
@@ -687,11 +794,15 @@ func run(c Case, sid int, cfg Cfg, keys Keys, obs *Obs, sc *Script) {
 		start := cfg.RespPrefix.Len + cfg.KeyLen + 11 + cfg.KeyLen + TagSize
 		capBig := GrowCap(start + 4096 + TagSize)
 		m := []int{len(st.Writes)}
+		var sres []WObs
 		for _, o := range c.SWrites {
-			if err := doWrites(sconn, []WOp{o}); err != nil {
-				obs.SWriteErr = err.Error()
+			wr := doWrite(sconn, o)
+			if strings.HasPrefix(wr.Err, "other:") {
+				obs.SWriteErr = wr.Err
 				return
 			}
+			sres = append(sres, wr)
+			obs.S2CHanded = append(obs.S2CHanded, wr.Handed...)
 			m = append(m, len(st.Writes))
 		}
 		obs.S2CWrites = st.Writes
@@ -723,7 +834,8 @@ func run(c Case, sid int, cfg Cfg, keys Keys, obs *Obs, sc *Script) {
 		for i, o := range c.SWrites {
 			choice := fmt.Sprintf("%s %d %d %d", HexField(rf.Salt), rts, capW, capBig)
 			if o.Kind == "readfrom" {
-				sc.Add(fmt.Sprintf("%d sreadfrom %s %s %s", sid, o.Data.Field(), Csv(o.Sizes), choice), "ok segs "+rseg(m[i], m[i+1]))
+				_, spec := o.script()
+				sc.Add(fmt.Sprintf("%d sreadfrom %s %s %s", sid, o.Data.Field(), spec, choice), "ok segs "+rseg(m[i], m[i+1])+" ret="+sres[i].Err)
 			} else {
 				sc.Add(fmt.Sprintf("%d swrite %s %s", sid, o.Data.Field(), choice), "ok segs "+rseg(m[i], m[i+1]))
 			}
@@ -769,6 +881,9 @@ func run(c Case, sid int, cfg Cfg, keys Keys, obs *Obs, sc *Script) {
 	now = time.Now().Unix()
 	obs.COps = RunOps(cc, c.CReads, cfg, c.Target, true, c.SinkStarted, false)
 	for _, o := range obs.COps {
+		if o.Op.Kind == "writeto-badsink" {
+			continue
+		}
 		flatOnly := o.Op.Kind == "tunnel" && !c.SinkStarted
 		sc.Add(OpLine(sid, "c", o.Op, now, c.SinkStarted), OpExpect(o, flatOnly))
 	}
